@@ -55,11 +55,11 @@ run)
         p=$(basename "$d" | cut -d- -f1)
         echo "== seed seeded/$(basename "$d") patch for $p (lane $i)"
         if [ ! -f "$d/patch.diff" ]; then echo "  B0 no patch.diff (obsolete seed)"; continue; fi
-        cd "$L/repo" && git checkout -q -- . && if ! git apply "$d/patch.diff" 2>/dev/null; then echo "  B0 patch does not apply"; continue; fi
+        cd "$L/repo" && git checkout -q -- . && git clean -qfd rlib && if ! git apply "$d/patch.diff" 2>/dev/null; then echo "  B0 patch does not apply"; continue; fi
         OUT="$(cd "$L/verif" && ./check "$p" quick 2>&1)"; RC=$?
         echo "  B1 ./check $p quick: exit $RC $(echo "$OUT" | grep -E 'signature|MACHINERY' | head -1 | cut -c1-220)"
         echo "  SUMMARY-B check_quick_exit=$RC"
-        cd "$L/repo" && git checkout -q -- .
+        cd "$L/repo" && git checkout -q -- . && git clean -qfd rlib
       done
     ) > "$LOG.lane$i" 2>&1 &
   done
